@@ -25,6 +25,9 @@ type c13Ctx struct {
 	// scanner (a '/' on the line after a JSight schema may start a schema annotation) and are therefore not decided
 	// by the API scanner's directive-start state.
 	SkipFirst string `json:"skip_first,omitempty"`
+	// ParenOK: an opening parenthesis is legal here (the position directly follows a directive's keyword line);
+	// elsewhere '(' has no directive to belong to and is rejected at that byte.
+	ParenOK bool `json:"paren_ok,omitempty"`
 }
 
 type c13Params struct {
@@ -35,21 +38,21 @@ type c13Params struct {
 func c13Contexts(all bool) []c13Ctx {
 	cc := []c13Ctx{
 		{Name: "file-start", Prefix: ""},
-		{Name: "after-directive-line", Prefix: "URL /a\n"},
+		{Name: "after-directive-line", ParenOK: true, Prefix: "URL /a\n"},
 	}
 	if all {
 		cc = append(cc,
-			c13Ctx{Name: "indented", Prefix: "URL /a\n  \t"},
-			c13Ctx{Name: "after-crlf", Prefix: "URL /a\r\n"},
+			c13Ctx{Name: "indented", ParenOK: true, Prefix: "URL /a\n  \t"},
+			c13Ctx{Name: "after-crlf", ParenOK: true, Prefix: "URL /a\r\n"},
 			c13Ctx{Name: "after-explicit-open", Prefix: "URL /a\n(\n"},
 			c13Ctx{Name: "after-explicit-close", Prefix: "URL /a\n(\n)\n"},
 			c13Ctx{Name: "after-schema-body", Prefix: "TYPE @a\n{}\n", SkipFirst: "/"},
 			c13Ctx{Name: "after-regex-body", Prefix: "TYPE @a regex\n/a/\n"},
 			c13Ctx{Name: "after-enum-body", Prefix: "ENUM @e\n[1]\n", SkipFirst: "/"},
-			c13Ctx{Name: "after-annotation", Prefix: "GET /a // note\n"},
+			c13Ctx{Name: "after-annotation", ParenOK: true, Prefix: "GET /a // note\n"},
 			c13Ctx{Name: "after-comment", Prefix: "# c\n"},
 			c13Ctx{Name: "after-block-comment", Prefix: "### c\n ###\n"},
-			c13Ctx{Name: "after-any-type", Prefix: "TYPE @a any\n"},
+			c13Ctx{Name: "after-any-type", ParenOK: true, Prefix: "TYPE @a any\n"},
 			c13Ctx{Name: "request-body-position", Prefix: "Request\n", Only: "BHPI"},
 			c13Ctx{Name: "response-body-position", Prefix: "200\n", Only: "BHPI"},
 		)
@@ -213,6 +216,8 @@ func c13Context(w *run.W, cx c13Ctx, depth int, table map[string]bool) {
 					want = "completed"
 				case ref.IsKeywordPrefix(word):
 					want = "live"
+				case p == "" && sym == '(' && !cx.ParenOK:
+					want = "rejected"
 				case p == "" && strings.ContainsRune(" \t\r\n#()", rune(sym)):
 					want = "neutral"
 				default:
